@@ -75,3 +75,7 @@ pub use crate::core::{txtpp, Config, Mode, Txtpp, Verbosity};
 pub mod error;
 mod fs;
 pub use crate::fs::TXTPP_FILE;
+
+/// Hooks for external verification machinery; absent unless the `verif` feature is on
+#[cfg(feature = "verif")]
+pub mod verif;
